@@ -32,7 +32,7 @@ def expected_listing(doc):
     return out
 
 
-def one(ctx: Ctx, cs, damage=False, pname=None, over=None):
+def one(ctx: Ctx, cs, damage=False, pname=None, over=None, derive=None):
     import kernpy as kp
     TC = kp.TokenCategory
     arg_pname = pname
@@ -66,8 +66,15 @@ def one(ctx: Ctx, cs, damage=False, pname=None, over=None):
         return
     if damage:
         ctx.cls('document_with_error_tokens')
+    if derive and not damage:
+        # the queries on a Document obtained through the API (a clone, the result of concat over the text cut at barlines): same cells,
+        # same order
+        from . import measures_common as MC
+        d = MC.derive_document(ctx, d, doc, x, cs, derive)
+        if d is None:
+            return
     ctx.cls(*sorted(doc.tags))
-    case = {'case_seed': cs, 'text': x, 'damage': damage, 'pname': arg_pname, 'over': over}
+    case = {'case_seed': cs, 'text': x, 'damage': damage, 'pname': arg_pname, 'over': over, 'derive': derive}
     exp = expected_listing(doc)
     try:
         listing = d.get_all_tokens()
@@ -196,6 +203,8 @@ def run(ctx: Ctx):
     n = 170 if ctx.tier == 'quick' else 1000
     for k, cs in enumerate(cases(ctx, 'c17', n)):
         one(ctx, cs, damage=(k % 5 == 4))
+    for k, cs in enumerate(cases(ctx, 'c17-derived', n // 6)):
+        one(ctx, cs, derive=['clone', 'concat'][k % 2])
     # boundary documents: header + terminator, interpretations only, a single line (no measure at all / exactly one)
     for k, cs in enumerate(cases(ctx, 'c17-tiny', n // 4)):
         one(ctx, cs, pname='tiny', over=[{}, {'types': ('**kern',), 'max_spines': 1}, {'types': ('**kern',), 'p_sig': 0.9},
@@ -216,5 +225,5 @@ def run(ctx: Ctx):
 
 def replay(ctx, w):
     case = w.get('case', w)
-    one(ctx, case['case_seed'], damage=case.get('damage', False), pname=case.get('pname'), over=case.get('over'))
+    one(ctx, case['case_seed'], damage=case.get('damage', False), pname=case.get('pname'), over=case.get('over'), derive=case.get('derive'))
     print(case.get('text', ''))
